@@ -2490,6 +2490,10 @@ func (a *Authenticator) PerformTokenAuthenticationDemo(method AuthMethod, negoti
 	return a.performTokenAuthentication(context.Background(), method, negotiation)
 }
 
+// maxExchangedKeyLen bounds the wrapped session key a server may send in
+// exchangeKey (real keys are a few hundred bytes at most).
+const maxExchangedKeyLen = 64 * 1024
+
 // exchangeKey performs the key exchange step following HTCondor's Authentication::exchangeKey
 // For modern HTCondor with AESGCM crypto, the server always sends an empty key
 func (a *Authenticator) exchangeKey(ctx context.Context, negotiation *SecurityNegotiation) error {
@@ -2538,14 +2542,14 @@ func (a *Authenticator) exchangeKey(ctx context.Context, negotiation *SecurityNe
 			slog.Info(fmt.Sprintf("🔑 CLIENT: Receiving key - length: %d, protocol: %d, duration: %d, inputLen: %d",
 				keyLength, protocol, duration, inputLen), "destination", "cedar")
 
-			// Read encrypted key data
-			encryptedKey := make([]byte, inputLen)
-			for i := 0; i < inputLen; i++ {
-				b, err := msg.GetChar(ctx)
-				if err != nil {
-					return fmt.Errorf("failed to get encrypted key byte %d: %w", i, err)
-				}
-				encryptedKey[i] = b
+			// Read encrypted key data. The length comes from the peer: bound it, and
+			// let GetBytes allocate only once the bytes have actually arrived.
+			if inputLen < 0 || inputLen > maxExchangedKeyLen {
+				return fmt.Errorf("invalid encrypted key length %d (max %d)", inputLen, maxExchangedKeyLen)
+			}
+			encryptedKey, err := msg.GetBytes(ctx, inputLen)
+			if err != nil {
+				return fmt.Errorf("failed to get encrypted key (%d bytes): %w", inputLen, err)
 			}
 
 			// TODO: Unwrap the key using the authenticator
